@@ -73,6 +73,7 @@ func c15(args []string) int {
 		metas := make([]map[string]string, n)
 		healthy := make([]bool, n)
 		dense := r.Pct(50)
+		sick := r.Pct(15) // mostly unhealthy hosts: matched subsets without a selectable host
 		for i := range metas {
 			m := map[string]string{}
 			for _, k := range ssKeys[:3] {
@@ -85,7 +86,11 @@ func c15(args []string) int {
 				}
 			}
 			metas[i] = m
-			healthy[i] = !r.Pct(15)
+			if sick {
+				healthy[i] = !r.Pct(65)
+			} else {
+				healthy[i] = !r.Pct(15)
+			}
 		}
 		// ---- selectors
 		ns := r.Intn(4)
@@ -293,30 +298,89 @@ func c15(args []string) int {
 					}
 					return true
 				}
-				matchHealthy := false
+				matchAny, matchHealthy := false, false
 				for i := 0; i < n; i++ {
-					if healthy[i] && contains(i, c) {
-						matchHealthy = true
+					if contains(i, c) {
+						matchAny = true
+						if healthy[i] {
+							matchHealthy = true
+						}
 					}
 				}
-				for _, id := range o1.IDs {
-					switch {
-					case id < 0:
-						run.Fail("subset:non-member", "ChooseHost returned a host outside the cluster", rep)
-					case selExists && matchHealthy:
-						if !contains(id, c) {
-							run.Fail("subset:criteria-not-honoured", fmt.Sprintf("criteria %v has a selector and a matching host, yet host #%d (metadata %v) was chosen", c, id, metas[id]), rep)
-						}
-					case pol == 2:
-						if !contains(id, dflt) {
-							run.Fail("subset:default-subset-fallback-not-exact", fmt.Sprintf("fallback default-subset %v: host #%d (metadata %v) was chosen for criteria %v", dflt, id, metas[id], c), rep)
-						}
-					case pol == 0:
-						run.Fail("subset:no-fallback-returned-host", fmt.Sprintf("fallback policy none, no usable subset for criteria %v, yet host #%d was chosen", c, id), rep)
+				// the fallback set of the configured policy and whether it has a selectable host
+				inFallback := func(i int) bool {
+					switch pol {
+					case 1:
+						return true
+					case 2:
+						return contains(i, dflt)
+					}
+					return false
+				}
+				fallbackHealthy := false
+				for i := 0; i < n; i++ {
+					if healthy[i] && inFallback(i) {
+						fallbackHealthy = true
 					}
 				}
-				if selExists && matchHealthy && len(o1.IDs) == 0 {
-					run.Fail("subset:no-host-for-matching-subset", fmt.Sprintf("criteria %v has a selector and a healthy matching host but no host was returned", c), rep)
+				for _, bo := range []struct {
+					name string
+					o    ssObs
+				}{{"filtering builder", o1}, {"pre-indexed builder", o2}} {
+					ids := bo.o.IDs
+					for _, id := range ids {
+						switch {
+						case id < 0:
+							run.Fail("subset:non-member", bo.name+": ChooseHost returned a host outside the cluster", rep)
+						case selExists && matchHealthy:
+							if !contains(id, c) {
+								run.Fail("subset:criteria-not-honoured", fmt.Sprintf("%s: criteria %v has a selector and a matching host, yet host #%d (metadata %v) was chosen", bo.name, c, id, metas[id]), rep)
+							}
+						case pol == 2:
+							if !contains(id, dflt) {
+								run.Fail("subset:default-subset-fallback-not-exact", fmt.Sprintf("%s: fallback default-subset %v: host #%d (metadata %v) was chosen for criteria %v", bo.name, dflt, id, metas[id], c), rep)
+							}
+						case pol == 0:
+							run.Fail("subset:no-fallback-returned-host", fmt.Sprintf("%s: fallback policy none, no usable subset for criteria %v, yet host #%d was chosen", bo.name, c, id), rep)
+						}
+					}
+					if selExists && matchHealthy && len(ids) == 0 {
+						run.Fail("subset:no-host-for-matching-subset", fmt.Sprintf("%s: criteria %v has a selector and a healthy matching host but no host was returned", bo.name, c), rep)
+					}
+					// the fallback clause on the real answers: no usable subset (none, or none of its hosts selectable)
+					// and the fallback set has a selectable host => a host must be returned (membership in the fallback
+					// set is checked above)
+					if !(selExists && matchHealthy) && fallbackHealthy && len(ids) == 0 {
+						if selExists && matchAny {
+							run.Fail("subset:fallback-not-applied-when-matched-subset-has-no-selectable-host",
+								fmt.Sprintf("%s: criteria %v match a subset whose hosts are all unhealthy; fallback policy %d has a healthy host, yet ChooseHost returned no host in %d calls", bo.name, c, pol, 2*n+3), rep)
+						} else {
+							run.Fail("subset:fallback-not-applied-when-no-subset-matches",
+								fmt.Sprintf("%s: no subset for criteria %v; fallback policy %d has a healthy host, yet ChooseHost returned no host in %d calls", bo.name, c, pol, 2*n+3), rep)
+						}
+					}
+				}
+				if selExists && matchAny && !matchHealthy {
+					run.Sum.Distribution["query:matched-subset-all-unhealthy"]++
+					if fallbackHealthy {
+						run.Sum.Distribution["query:matched-subset-all-unhealthy+fallback-has-healthy"]++
+					}
+				}
+			} else {
+				// nil criteria: the balancer over all hosts (then the fallback, a sub-set of all hosts)
+				anyHealthy := false
+				for i := 0; i < n; i++ {
+					if healthy[i] {
+						anyHealthy = true
+					}
+				}
+				for _, bo := range []struct {
+					name string
+					o    ssObs
+				}{{"filtering builder", o1}, {"pre-indexed builder", o2}} {
+					if anyHealthy && len(bo.o.IDs) == 0 {
+						run.Fail("subset:no-criteria-no-host", bo.name+": nil criteria, a healthy host exists, yet ChooseHost returned no host", rep)
+					}
 				}
 			}
 			if len(run.Sum.Samples) < 6 && n >= 3 && len(c) >= 2 && len(o1.IDs) > 0 && r.Pct(3) {
